@@ -32,7 +32,7 @@ def shape_check(xs, ys, out, t=None):
     slopes = [(Y[i + 1] - Y[i]) / (X[i + 1] - X[i]) for i in range(n - 1)]
     dxmin = min(X[i + 1] - X[i] for i in range(n - 1))
     cond = max(Fraction(1), max(abs(v) for v in X) / dxmin)
-    smax = max([abs(s) for s in slopes] + [Fraction(1)])
+    smax = max([abs(s) for s in slopes] + [Fraction(1, 10 ** 300)])
     dtol = Fraction(1, 10 ** 7) * smax * cond ** 3
     msgs = []
     for i, c in enumerate(segs):
